@@ -247,6 +247,12 @@ func verifIP6Case(mask int, free int) {
 			ip[2*i], ip[2*i+1] = byte(consts[i]>>8), byte(consts[i])
 		}
 	}
+	// ::ffff:a.b.c.d (IPv4-mapped) is rendered as dotted quad by design: that form belongs to VerifC20IP4
+	mapped := ip[10] == 0xff && ip[11] == 0xff
+	for i := 0; i < 10; i++ {
+		mapped = mapped && ip[i] == 0
+	}
+	verifAssume(!mapped)
 	l, start := verifLine(64)
 	l.IPSlice("ip", net.IP(ip))
 	verifExpect(l, start, verifField("ip", verifRFC5952(ip)), "IPSlice6")
